@@ -369,6 +369,7 @@ func runDesigns(run *vc.Run, c *rtCheck, dir string, specs []*spec.Spec, mk func
 				continue
 			}
 			conclusive++
+			countUnions(run, ex) // union.go
 			for _, f := range v.Findings {
 				if verbose {
 					fmt.Printf("FINDING %s: %s\n", f.Key, f.What)
@@ -390,6 +391,9 @@ func runDesigns(run *vc.Run, c *rtCheck, dir string, specs []*spec.Spec, mk func
 		}
 		if conclusive > 0 {
 			run.Count("designs_driven", 1)
+			if hasFeature(d.Spec, "union") {
+				run.Count("union_designs_driven", 1)
+			}
 			for _, ex := range r.exs {
 				if ex.Stream != nil && ex.Stream.Watchdog == "" {
 					run.Count("stream_designs_driven", 1)
